@@ -2,9 +2,9 @@
    (The HPACK half of the property has its own theorems.) Only statements here; every
    proof is one lemma of Proofs/FramesC16.v. *)
 From Coq Require Import List NArith ZArith Bool.
-From H2V Require Import Base.Bytes Base.MachineInt Base.Result Spec.Rfc7540Frames
+From H2V Require Import Base.Bytes Base.MachineInt Base.Result Gen.GenConsts Spec.Rfc7540Frames
   Impl.Pools Impl.Frames Impl.FrameView
-  Proofs.FramesSpec Proofs.FramesRead Proofs.FramesC16
+  Proofs.FramesSpec Proofs.FramesRead Proofs.FramesC16 Proofs.FramesPooled
   Proofs.FramesExamples.   (* compiled with the property so that the examples are checked too *)
 Import ListNotations.
 Local Open Scope N_scope.
@@ -92,3 +92,14 @@ Theorem C16_read_stream : forall max fs rest,
   read_many max (length fs) (flat_map spec_write fs ++ rest) = map (fun f => Ok (view max f)) fs.
 Proof. exact read_stream. Qed.
 Print Assumptions C16_read_stream.
+
+(* 6. the FrameHeader and the frame body are pooled objects: ReadFrameFromWithSize(br, max)
+   (lim = Some max) and ReadFrameFrom(br) (lim = None, i.e. the default limit) give the
+   result the theorems above are about whatever the pooled header (its limit, payload,
+   length, flags, body) and the pooled body of the frame's type held before *)
+Theorem C16_read_pool_independent : forall ps lim input,
+  pools_ok ps ->
+  read_frame_pooled ps lim input =
+  read_frame_with_size (match lim with Some m => m | None => c_defaultMaxLen end) input.
+Proof. exact read_pool_independent. Qed.
+Print Assumptions C16_read_pool_independent.
